@@ -4,7 +4,7 @@ V=${VERIF_HOME:-/verif}
 OUT=$(cd "$(dirname "$4")" && pwd)/$(basename "$4")
 D=$(mktemp -d $V/run/sgen.XXXX)
 printf 'SPECIFICATION Spec\nCONSTANTS\n  Depth = %s\n  Exhaustive = FALSE\nINVARIANTS\n  Emit\n  TypeOK\n' "$2" > $D/gen.cfg
-cd $V/spec && timeout 900 java -Xmx4g -Xss512m -cp /opt/veriftools/tla/tla2tools.jar:/opt/veriftools/tla/CommunityModules-deps.jar tlc2.TLC -noGenerateSpecTE -deadlock -workers 1 -simulate num=$1 -depth $(( $2 + 2 )) -seed $3 -metadir $D/md -config $D/gen.cfg MC_Store.tla > $D/out.txt 2>&1
+cd $V/spec && timeout 900 java -Xmx4g -Xss512m -Djava.io.tmpdir=$D -cp /opt/veriftools/tla/tla2tools.jar:/opt/veriftools/tla/CommunityModules-deps.jar tlc2.TLC -noGenerateSpecTE -deadlock -workers 1 -simulate num=$1 -depth $(( $2 + 2 )) -seed $3 -metadir $D/md -config $D/gen.cfg MC_Store.tla > $D/out.txt 2>&1
 if grep -q "^Error" $D/out.txt; then grep -A5 "^Error" $D/out.txt | head -20 >&2; exit 2; fi
 grep STOREGEN $D/out.txt | python3 -c "
 import sys,re,json
